@@ -290,3 +290,27 @@ MUTANTS["C15"] = [
     ("executor-remembers-first-devices-ports", "annet/mesh/executor.py", "                for p1, p2 in self._storage.search_connections(device, neighbor_device)\n", "                for p1, p2 in self.__dict__.setdefault('_vf_conn', {}).setdefault(frozenset((device.fqdn, neighbor_device.fqdn)), list(self._storage.search_connections(device, neighbor_device)))\n"),
     ("filter-type-errors-escape", "annet/mesh/match_args.py", "        except (TypeError, ValueError, AttributeError, KeyError, IndexError):", "        except (ValueError, AttributeError, KeyError, IndexError):"),
 ]
+
+# ---- round 9 sub-checks -----------------------------------------------------------------------------------
+MUTANTS["C18"] += [
+    ("escaped-text-cache-filled-before-the-read", "annet/rulebook/__init__.py",
+     "                with open(path.join(root_dir, \"texts\", name), \"r\") as f:\n",
+     "                self._escaped_rul_cache[name] = \"\"\n                with open(path.join(root_dir, \"texts\", name), \"r\") as f:\n"),
+    ("render-cache-filled-before-the-render", "annet/rulebook/__init__.py",
+     "            self._render_rul_cache[key] = mako_render(self._read_escaped_rul(name), hw=hw)",
+     "            self._render_rul_cache[key] = \"\"\n            self._render_rul_cache[key] = mako_render(self._read_escaped_rul(name), hw=hw)"),
+]
+MUTANTS["C08"] += [
+    ("negated-form-loses-the-inline-case-marker", "annet/annlib/rbparser/ordering.py",
+     'syntax.compile_row_regexp(reverse_prefix + " " + attrs["row"])\n                        if not',
+     'syntax.compile_row_regexp(reverse_prefix + " " + attrs["row"].replace("(?i)", ""))\n                        if not'),
+]
+MUTANTS["C10"] += [
+    ("flatten-takes-iterators-for-words", "annet/annlib/lib.py", "        if not isinstance(x, (str, bytes)) and isinstance(x, Iterable):\n            yield from flatten(x)",
+     "        if not isinstance(x, (str, bytes)) and isinstance(x, Iterable) and not hasattr(x, \"__next__\"):\n            yield from flatten(x)"),
+]
+MUTANTS["C15"] += [
+    ("indirect-interface-name-read-from-the-far-end-when-both-name-one", "annet/mesh/executor.py",
+     "                getattr(connected_pair.local, \"ifname\", None),\n                to_interface_changes(connected_pair.local),",
+     "                getattr(connected_pair.local, \"ifname\", None) and getattr(connected_pair.connected, \"ifname\", None),\n                to_interface_changes(connected_pair.local),"),
+]
